@@ -63,6 +63,8 @@ type Exec struct {
 	notExist   Value
 	curG       int         // goroutine currently executed by the scheduler (+1), 0 = harness main
 	protected  map[int]int // object id -> sync cell of the mutex that must be held to touch it
+	LedDevice, LedCapture, LedCancel Value
+	ufMemo     map[string][]Value
 	DecodeFailKind *smt.Term
 	WatcherChan Value
 	WatcherDone Value
@@ -633,6 +635,9 @@ func (ex *Exec) run(st *State, fr *Frame, b *ssa.BasicBlock, pred *ssa.BasicBloc
 				return
 			}
 			ex.Instrs++
+			if ex.Instrs&1023 == 0 {
+				checkResources()
+			}
 			switch in := instr.(type) {
 			case *ssa.Phi:
 				continue
@@ -1026,7 +1031,7 @@ func (ex *Exec) step(st *State, fr *Frame, instr ssa.Instruction) {
 			ex.registerGo(st, fr, in)
 		}
 	case *ssa.Select:
-		panic(unsupported("select in sequential mode at " + ex.Prog.Fset.Position(in.Pos()).String()))
+		fr.regs[in] = ex.selectSeq(st, fr, in)
 	default:
 		panic(unsupported(fmt.Sprintf("instruction %T: %s", instr, instr)))
 	}
@@ -1567,4 +1572,98 @@ func (ex *Exec) newChanC(capacity int, et types.Type) *ChanC {
 		return &ChanC{Ring: true, Slots: sl, Len: bv64(0), Closed: smt.False, Cap: capacity}
 	}
 	return &ChanC{Closed: smt.False, Cap: capacity}
+}
+
+// selectSeq: select in sequential mode. Receive cases are taken in source order among the ready ones (a fired
+// timer, a closed context, a non-empty channel); `default` if none is ready; a blocking select with no ready case
+// blocks forever (reported, path ends). Send cases are not supported sequentially.
+func (ex *Exec) selectSeq(st *State, fr *Frame, in *ssa.Select) Value {
+	n := len(in.States)
+	zeroVals := func() []Value {
+		var v []Value
+		for _, s := range in.States {
+			if s.Dir == types.RecvOnly {
+				v = append(v, ex.zero(s.Chan.Type().Underlying().(*types.Chan).Elem()))
+			}
+		}
+		return v
+	}
+	mk := func(idx int, ok *smt.Term, vals []Value) Value {
+		return &TupleV{E: append([]Value{bv64(int64(idx)), ok}, vals...)}
+	}
+	var result Value
+	taken := smt.False
+	// evaluate from the last case to the first so that earlier ready cases win in the merged value
+	type alt struct {
+		cond *smt.Term
+		st   *State
+		val  Value
+	}
+	var alts []alt
+	notEarlier := smt.True
+	for i := 0; i < n; i++ {
+		s := in.States[i]
+		if s.Dir != types.RecvOnly {
+			panic(unsupported("select with a send case in sequential mode"))
+		}
+		ch := ex.val(fr, s.Chan)
+		ready := ex.chanReady(st, ch, false)
+		cond := smt.And(notEarlier, ready)
+		notEarlier = smt.And(notEarlier, smt.Not(ready))
+		if cond.IsFalse() {
+			continue
+		}
+		si := st.fork(cond)
+		if si.dead {
+			continue
+		}
+		et := s.Chan.Type().Underlying().(*types.Chan).Elem()
+		rt := types.NewTuple(types.NewVar(token.NoPos, nil, "", et), types.NewVar(token.NoPos, nil, "", types.Typ[types.Bool]))
+		old := ex.inE2
+		ex.inE2 = true // the case is ready: no blocked-receive outcome
+		r := ex.withChoice(si, ch, func(st *State, cv Value) Value { return ex.chanRecv(st, in, cv, true, rt) })
+		ex.inE2 = old
+		if si.dead {
+			continue
+		}
+		t := r.(*TupleV)
+		vals := zeroVals()
+		k := 0
+		for j, s2 := range in.States {
+			if s2.Dir == types.RecvOnly {
+				if j == i {
+					vals[k] = t.E[0]
+				}
+				k++
+			}
+		}
+		alts = append(alts, alt{cond, si, mk(i, t.E[1].(*smt.Term), vals)})
+		taken = smt.Or(taken, cond)
+	}
+	// none ready
+	if !in.Blocking {
+		cond := notEarlier
+		if !cond.IsFalse() {
+			sd := st.fork(cond)
+			if !sd.dead {
+				alts = append(alts, alt{cond, sd, mk(-1, smt.False, zeroVals())})
+			}
+		}
+	} else if !notEarlier.IsFalse() {
+		ex.outcome("blocked", "select with no ready case (sequential mode)", in, smt.And(st.pc, notEarlier))
+	}
+	if len(alts) == 0 {
+		st.kill()
+		return nil
+	}
+	acc := alts[len(alts)-1].st
+	result = alts[len(alts)-1].val
+	for i := len(alts) - 2; i >= 0; i-- {
+		dst := &State{}
+		mergeStates(dst, alts[i].cond, alts[i].st, acc)
+		acc = dst
+		result = mergeV(alts[i].cond, alts[i].val, result)
+	}
+	*st = *acc
+	return result
 }
